@@ -24,6 +24,15 @@ func inLon(lon, min, max, slack float64) bool {
 	return lon >= min-slack && lon <= max+slack
 }
 
+// option sets for re-parsing a circle's own JSON
+var c13ParseOpts = []*geojson.ParseOptions{
+	nil,
+	{IndexChildren: 64, IndexGeometry: 64, IndexGeometryKind: geometry.QuadTree, RequireValid: true},
+	{IndexChildren: 64, IndexGeometry: 64, IndexGeometryKind: geometry.QuadTree, AllowSimplePoints: true, RequireValid: true},
+	{IndexChildren: 1, IndexGeometry: 1, IndexGeometryKind: geometry.RTree, AllowRects: true, AllowSimplePoints: true},
+	{IndexChildren: 0, IndexGeometry: 0, IndexGeometryKind: geometry.None, AllowRects: true, RequireValid: true},
+}
+
 func geoCheck2(op string, v []float64) (bool, string, string) {
 	switch op {
 	case "rect-covers":
@@ -171,16 +180,24 @@ func geoCheck2(op string, v []float64) (bool, string, string) {
 		if math.IsNaN(v[2]) || math.IsInf(v[2], 0) || math.IsNaN(v[0]) || math.IsNaN(v[1]) {
 			return false, "", ""
 		}
-		o, err := geojson.Parse(js, nil)
-		if err != nil {
-			return true, "parses back", err.Error()
-		}
-		c2, ok := o.(*geojson.Circle)
-		if !ok {
-			return true, "parses back to a Circle", fmt.Sprintf("%T", o)
-		}
-		if c2.Center() != c.Center() || c2.Meters() != c.Meters() {
-			return true, fmt.Sprintf("same centre %v and radius %v", c.Center(), c.Meters()), fmt.Sprintf("%v %v", c2.Center(), c2.Meters())
+		// under every option set that keeps the Circle convention on (a centre in
+		// range makes the circle a valid object whatever its polygon does)
+		centreValid := v[0] >= -90 && v[0] <= 90 && v[1] >= -180 && v[1] <= 180
+		for oi, po := range c13ParseOpts {
+			if po != nil && po.RequireValid && !centreValid {
+				continue
+			}
+			o, err := geojson.Parse(js, po)
+			if err != nil {
+				return true, fmt.Sprintf("parses back (option set %d)", oi), err.Error()
+			}
+			c2, ok := o.(*geojson.Circle)
+			if !ok {
+				return true, fmt.Sprintf("parses back to a Circle (option set %d)", oi), fmt.Sprintf("%T", o)
+			}
+			if c2.Center() != c.Center() || c2.Meters() != c.Meters() {
+				return true, fmt.Sprintf("same centre %v and radius %v (option set %d)", c.Center(), c.Meters(), oi), fmt.Sprintf("%v %v", c2.Center(), c2.Meters())
+			}
 		}
 	case "circle-polygon":
 		c := geojson.NewCircle(geometry.Point{X: v[1], Y: v[0]}, v[2], int(v[3]))
@@ -394,7 +411,7 @@ func runC13(r *rt.Run) {
 	r.Bounds["absolute_offsets_m"] = offsets
 	r.Bounds["bearing_step_deg"] = bstep
 	r.Bounds["step_counts"] = "-1..4096"
-	r.Rule = "full product centres (7 special + 13 x 10 grid of latitudes incl. near-poles x longitudes incl. antimeridian) x radii (15 boundary values + 13 mantissas x 11 decades from 1 mm to 10,000 km) x bearings x distance factors (probe = reference destination point; every 30 degrees also with the probe longitude written +-360 degrees away) as Point and SimplePoint, both operand orders, contains and intersects; monotonicity along the radius alphabet; circle-circle over the same grid x radius alphabet; serialisation / polygon for radii incl. negative, NaN, Inf, 3piR and every step count -1..4096; non-trivial = probe outside the tolerance band"
+	r.Rule = "full product centres (7 special + 13 x 10 grid of latitudes incl. near-poles x longitudes incl. antimeridian) x radii (15 boundary values + 13 mantissas x 11 decades from 1 mm to 10,000 km) x bearings x distance factors (probe = reference destination point; every 30 degrees also with the probe longitude written +-360 degrees away) as Point and SimplePoint, both operand orders, contains and intersects; monotonicity along the radius alphabet; circle-circle over the same grid x radius alphabet; serialisation (re-parsed under 5 option sets incl. RequireValid) / polygon for radii incl. negative, NaN, Inf, 3piR and every step count -1..4096; non-trivial = probe outside the tolerance band"
 	r.Assume = []string{"sphere radius 6371e3 m", "reference distance: verif/mc/sphere; inside the stated band (max(1 mm, 1e-8 r)) either answer is accepted"}
 	r.States.Add(int64(len(centres) * len(radii)))
 	r.ParFor(len(centres)*len(radii), func(i int, w *rt.Worker) {
